@@ -26,3 +26,75 @@ pub use stream::{
     StreamSubscription,
 };
 pub use sync_metrics::{SessionPhase, SyncError};
+
+/// Verification hooks, only compiled with `--cfg p2panda_p2panda_verif`: re-exports of items
+/// living in private modules and a tap observing the bytes an ephemeral publisher sends.
+#[cfg(p2panda_p2panda_verif)]
+pub mod verif {
+    use std::cell::RefCell;
+
+    pub use super::acked::Acked;
+    pub use super::sync_metrics::Aggregator;
+
+    /// Feeds one sync event to the aggregator. The enriched event it produces is crate-private,
+    /// so only the topic totals it reports (if any) are handed out: (sent, received).
+    pub fn aggregator_process<E: p2panda_core::Extensions>(
+        aggregator: &mut Aggregator,
+        from_sync: p2panda_sync::FromSync<p2panda_sync::protocols::TopicLogSyncEvent<E>>,
+    ) -> Option<(u32, u32)> {
+        use super::sync_metrics::SyncEvent;
+        use super::stream::Source;
+
+        match aggregator.process(from_sync)? {
+            SyncEvent::SyncEnded {
+                sent_bytes_topic_total,
+                received_bytes_topic_total,
+                ..
+            } => Some((sent_bytes_topic_total, received_bytes_topic_total)),
+            SyncEvent::OperationReceived {
+                source:
+                    Source::SyncSession {
+                        sent_bytes_topic_total,
+                        received_bytes_topic_total,
+                        ..
+                    },
+                ..
+            } => Some((sent_bytes_topic_total, received_bytes_topic_total)),
+            _ => None,
+        }
+    }
+
+    thread_local! {
+        static PUBLISHED: RefCell<Vec<Vec<u8>>> = const { RefCell::new(Vec::new()) };
+    }
+
+    pub(crate) fn tap_published(bytes: &[u8]) {
+        PUBLISHED.with(|p| p.borrow_mut().push(bytes.to_vec()));
+    }
+
+    /// Entry point of every operation which arrives on a topic stream from outside (sync session,
+    /// import, replay): system-level processing, acknowledgement and decoding.
+    pub async fn process_operation<M>(
+        operation: crate::operation::Operation,
+        topic: p2panda_core::Topic,
+        pipeline: &crate::processor::verif::Pipeline<
+            crate::operation::LogId,
+            crate::operation::Extensions,
+            p2panda_core::Topic,
+        >,
+        ack_policy: crate::node::AckPolicy,
+        acked: &Acked,
+        source: super::Source,
+    ) -> Option<super::StreamEvent<M>>
+    where
+        M: serde::Serialize + for<'a> serde::Deserialize<'a> + Send + 'static,
+    {
+        super::stream::process_operation(operation, topic, pipeline, ack_policy, acked, source)
+            .await
+    }
+
+    /// Returns (and forgets) all ephemeral messages published from the calling thread.
+    pub fn take_published() -> Vec<Vec<u8>> {
+        PUBLISHED.with(|p| std::mem::take(&mut *p.borrow_mut()))
+    }
+}
